@@ -47,7 +47,11 @@ static void pair_case(Out &o, Gen &G, bool thorough) {
   if (!(range > 0)) range = 1.f;
   float origin[3] = {origin1, origin1, origin1};
   if (r.chance(50)) { origin[1] = six_decimal_value(G, -1000, 1000); origin[2] = six_decimal_value(G, -1000, 1000); }
-  auto inside = [&](int c) { float v = origin[c] + range * (float)G.u01(); if (v < origin[c]) v = origin[c]; if (v > origin[c] + range) v = origin[c] + range; return v; };
+  // a coordinate inside the box at float level: x >= origin and fl(x - origin) <= range (implied by the real box;
+  // fl(origin + range) >= x alone would NOT be enough: see C04_quant_error_f32's hypothesis)
+  auto in_box = [&](int c, float v) { volatile float d = v - origin[c]; return v >= origin[c] && d <= range; };
+  auto inside = [&](int c) { float v = origin[c] + range * (float)G.u01(); if (v < origin[c]) v = origin[c];
+    while (!in_box(c, v)) v = nextafterf(v, -INFINITY); return v; };
   // shared coordinates and private ones
   int ns = (int)r.range(1, 12), na = (int)r.range(0, 20), nb = (int)r.range(0, 20);
   std::vector<std::array<float, 3>> shared(ns);
@@ -57,7 +61,7 @@ static void pair_case(Out &o, Gen &G, bool thorough) {
     for (auto &p : shared) { int c = (int)r.below(3); double k = std::floor(G.u01() * M);
       float x = (float)((double)origin[c] + (k + 0.5) * (double)range / M);
       int st = (int)r.range(-1, 1); if (st) x = nextafterf(x, st > 0 ? INFINITY : -INFINITY);
-      if (x >= origin[c] && x <= origin[c] + range) p[c] = x; }
+      if (in_box(c, x)) p[c] = x; }
   }
   Enc e[2];
   for (int s = 0; s < 2; s++) {
